@@ -1007,3 +1007,627 @@ Proof.
   destruct (rec _ _) as [[body st3]|] eqn:Hb; [|discriminate]. cbn [sbind] in H. inv H.
   split; [reflexivity|]. exists body, st3. split; reflexivity.
 Qed.
+
+(* ====================================================================================== *)
+(* shrink_fresh_ids, part 1: max_id grows and bounds every variable id of the output        *)
+(* ====================================================================================== *)
+Section StmtInd.
+Variable P : stmt -> Prop.
+Hypothesis HSub : forall re n, P n -> P (Substitute re n).
+Hypothesis HCall : forall l a, P (Call l a).
+Hypothesis HLet : forall v t tag a n, P n -> P (Let v t tag a n).
+Hypothesis HSwitch : forall v t cls, Forall (fun c => P (snd c)) cls -> P (Switch v t cls).
+Hypothesis HCreate : forall v t env cls n, Forall (fun c => P (snd c)) cls -> P n -> P (Create v t env cls n).
+Hypothesis HInvoke : forall v tag t a, P (Invoke v tag t a).
+Hypothesis HLit : forall z v n, P n -> P (Literal z v n).
+Hypothesis HOp : forall a o b v n, P n -> P (Op a o b v n).
+Hypothesis HPrint : forall nl v n, P n -> P (PrintI64 nl v n).
+Hypothesis HIfC : forall so a b t e, P t -> P e -> P (IfC so a b t e).
+Hypothesis HExit : forall v, P (Exit v).
+Fixpoint stmt_ind' (s : stmt) : P s :=
+  let go := fix go (l : list (ident * ctx * stmt)) : Forall (fun c => P (snd c)) l :=
+    match l with
+    | [] => Forall_nil _
+    | c :: r => Forall_cons c (stmt_ind' (snd c)) (go r)
+    end in
+  match s with
+  | Substitute re n => HSub re n (stmt_ind' n)
+  | Call l a => HCall l a
+  | Let v t tag a n => HLet v t tag a n (stmt_ind' n)
+  | Switch v t cls => HSwitch v t cls (go cls)
+  | Create v t env cls n => HCreate v t env cls n (go cls) (stmt_ind' n)
+  | Invoke v tag t a => HInvoke v tag t a
+  | Literal z v n => HLit z v n (stmt_ind' n)
+  | Op a o b v n => HOp a o b v n (stmt_ind' n)
+  | PrintI64 nl v n => HPrint nl v n (stmt_ind' n)
+  | IfC so a b t e => HIfC so a b t e (stmt_ind' t) (stmt_ind' e)
+  | Exit v => HExit v
+  end.
+End StmtInd.
+
+(* every VARIABLE identifier of an AxCut statement (binders and occurrences; not labels, tags, type
+   names) has an id <= m *)
+Definition v_le (m : N) (x : ident) : bool := N.leb (idn x) m.
+Definition actx_le (m : N) (c : ctx) : bool := forallb (fun b => v_le m (bvar b)) c.
+Fixpoint ax_le (m : N) (s : stmt) : bool :=
+  let cls_le := fix go (l : list (ident * ctx * stmt)) : bool :=
+    match l with
+    | [] => true
+    | c :: r => actx_le m (snd (fst c)) && ax_le m (snd c) && go r
+    end in
+  match s with
+  | Substitute re n => forallb (fun p => v_le m (bvar (fst p)) && v_le m (snd p)) re && ax_le m n
+  | Call _ a => actx_le m a
+  | Let v _ _ a n => v_le m v && actx_le m a && ax_le m n
+  | Switch v _ cls => v_le m v && cls_le cls
+  | Create v _ env cls n =>
+      v_le m v && match env with Some e => actx_le m e | None => true end && cls_le cls && ax_le m n
+  | Invoke v _ _ a => v_le m v && actx_le m a
+  | Literal _ v n => v_le m v && ax_le m n
+  | Op a _ b v n => v_le m a && v_le m b && v_le m v && ax_le m n
+  | PrintI64 _ v n => v_le m v && ax_le m n
+  | IfC _ a b t e => v_le m a && match b with Some b' => v_le m b' | None => true end && ax_le m t && ax_le m e
+  | Exit v => v_le m v
+  end.
+Definition cls_le (m : N) (cls : list (ident * ctx * stmt)) : bool :=
+  forallb (fun c => actx_le m (snd (fst c)) && ax_le m (snd c)) cls.
+Lemma ax_le_switch : forall m v t cls, ax_le m (Switch v t cls) = v_le m v && cls_le m cls.
+Proof. intros. reflexivity. Qed.
+Lemma ax_le_create : forall m v t env cls n,
+  ax_le m (Create v t env cls n) =
+  v_le m v && match env with Some e => actx_le m e | None => true end && cls_le m cls && ax_le m n.
+Proof. intros. reflexivity. Qed.
+Definition def_le (m : N) (d : def) : bool := actx_le m (dctx d) && ax_le m (dbody d).
+
+Lemma v_le_mono : forall m m' x, (m <= m')%N -> v_le m x = true -> v_le m' x = true.
+Proof. unfold v_le. intros. apply N.leb_le. apply N.leb_le in H0. lia. Qed.
+Lemma actx_le_mono : forall m m' c, (m <= m')%N -> actx_le m c = true -> actx_le m' c = true.
+Proof.
+  unfold actx_le. intros m m' c Hm H. rewrite forallb_forall in *. intros b Hb. eapply v_le_mono; eauto.
+Qed.
+Ltac split_and :=
+  repeat match goal with
+         | H : _ && _ = true |- _ => apply andb_prop in H as [? ?]
+         | |- _ && _ = true => apply andb_true_intro; split
+         end.
+Lemma cls_le_mono : forall m m' cls, (m <= m')%N ->
+  Forall (fun c : ident * ctx * stmt => ax_le m (snd c) = true -> ax_le m' (snd c) = true) cls ->
+  cls_le m cls = true -> cls_le m' cls = true.
+Proof.
+  intros m m' cls Hm HF H. unfold cls_le in *. rewrite forallb_forall in *. rewrite Forall_forall in HF.
+  intros c Hc. specialize (H c Hc). split_and; eauto using actx_le_mono.
+Qed.
+Lemma re_le_mono : forall m m' (re : list (binding * ident)), (m <= m')%N ->
+  forallb (fun p => v_le m (bvar (fst p)) && v_le m (snd p)) re = true ->
+  forallb (fun p => v_le m' (bvar (fst p)) && v_le m' (snd p)) re = true.
+Proof.
+  intros m m' re Hm H. rewrite forallb_forall in *. intros p Hp. specialize (H p Hp). split_and; eauto using v_le_mono.
+Qed.
+Lemma ax_le_mono : forall m m', (m <= m')%N -> forall s, ax_le m s = true -> ax_le m' s = true.
+Proof.
+  intros m m' Hm. apply (stmt_ind' (fun s => ax_le m s = true -> ax_le m' s = true)); intros; rewrite ?ax_le_switch, ?ax_le_create in *.
+  - cbn [ax_le] in *. split_and; eauto using re_le_mono.
+  - cbn [ax_le] in *. eauto using actx_le_mono.
+  - cbn [ax_le] in *. split_and; eauto using v_le_mono, actx_le_mono.
+  - split_and; eauto using v_le_mono, cls_le_mono.
+  - split_and; eauto using v_le_mono, cls_le_mono. destruct env; eauto using actx_le_mono.
+  - cbn [ax_le] in *. split_and; eauto using v_le_mono, actx_le_mono.
+  - cbn [ax_le] in *. split_and; eauto using v_le_mono.
+  - cbn [ax_le] in *. split_and; eauto using v_le_mono.
+  - cbn [ax_le] in *. split_and; eauto using v_le_mono.
+  - cbn [ax_le] in *. split_and; eauto using v_le_mono. destruct b; eauto using v_le_mono.
+  - cbn [ax_le] in *. eauto using v_le_mono.
+Qed.
+Lemma def_le_mono : forall m m' d, (m <= m')%N -> def_le m d = true -> def_le m' d = true.
+Proof. unfold def_le. intros. split_and; eauto using actx_le_mono, ax_le_mono. Qed.
+Lemma defs_le_mono : forall m m' ds, (m <= m')%N -> forallb (def_le m) ds = true -> forallb (def_le m') ds = true.
+Proof. intros. rewrite forallb_forall in *. intros d Hd. eapply def_le_mono; eauto. Qed.
+
+(* substitution (AxCut) keeps the bound when the new identifiers obey it *)
+Definition asub_le (m : N) (sub : asubst) : Prop := forall o n, In (o, n) sub -> v_le m n = true.
+Lemma ax_subst_ident_le : forall m sub x, asub_le m sub -> v_le m x = true -> v_le m (ax_subst_ident sub x) = true.
+Proof.
+  induction sub as [|[o n] r IH]; intros x Hs Hx; simpl; [exact Hx|].
+  destruct (N.eqb o (idn x)); [eapply Hs; now left | apply IH; auto]. intros o' n' Hin. eapply Hs. right. exact Hin.
+Qed.
+Lemma ax_subst_ctx_le : forall m sub c, asub_le m sub -> actx_le m c = true -> actx_le m (ax_subst_ctx sub c) = true.
+Proof.
+  intros m sub c Hs H. unfold actx_le, ax_subst_ctx in *. rewrite forallb_forall in *. intros b Hb.
+  apply in_map_iff in Hb as [b0 [<- Hb0]]. simpl. apply ax_subst_ident_le; auto.
+Qed.
+Definition ax_subst_cls (sub : asubst) (cls : list (ident * ctx * stmt)) : list (ident * ctx * stmt) :=
+  map (fun c => (fst (fst c), snd (fst c), ax_subst sub (snd c))) cls.
+Lemma ax_subst_switch : forall sub v t cls, ax_subst sub (Switch v t cls) = Switch (ax_subst_ident sub v) t (ax_subst_cls sub cls).
+Proof.
+  intros. simpl. f_equal. induction cls as [|[[x c] b] r IH]; simpl; [reflexivity|]. now rewrite IH.
+Qed.
+Lemma ax_subst_create : forall sub v t env cls n,
+  ax_subst sub (Create v t env cls n) = Create v t (option_map (ax_subst_ctx sub) env) (ax_subst_cls sub cls) (ax_subst sub n).
+Proof.
+  intros. simpl. f_equal. induction cls as [|[[x c] b] r IH]; simpl; [reflexivity|]. now rewrite IH.
+Qed.
+Lemma ax_subst_cls_le : forall m sub cls,
+  Forall (fun c : ident * ctx * stmt => ax_le m (snd c) = true -> ax_le m (ax_subst sub (snd c)) = true) cls ->
+  cls_le m cls = true -> cls_le m (ax_subst_cls sub cls) = true.
+Proof.
+  intros m sub cls HF H. unfold cls_le, ax_subst_cls in *. rewrite forallb_forall in *. rewrite Forall_forall in HF.
+  intros c Hc. apply in_map_iff in Hc as [c0 [<- Hc0]]. simpl. specialize (H c0 Hc0). split_and; auto.
+Qed.
+Lemma ax_subst_le : forall m sub, asub_le m sub -> forall s, ax_le m s = true -> ax_le m (ax_subst sub s) = true.
+Proof.
+  intros m sub Hs. apply (stmt_ind' (fun s => ax_le m s = true -> ax_le m (ax_subst sub s) = true)); intros;
+    rewrite ?ax_subst_switch, ?ax_subst_create; rewrite ?ax_le_switch, ?ax_le_create in *.
+  - cbn [ax_le ax_subst] in *. split_and; auto. rewrite forallb_forall in *. intros p Hp.
+    apply in_map_iff in Hp as [p0 [<- Hp0]]. simpl. specialize (H0 p0 Hp0). split_and; auto using ax_subst_ident_le.
+  - cbn [ax_le ax_subst] in *. auto using ax_subst_ctx_le.
+  - cbn [ax_le ax_subst] in *. split_and; auto using ax_subst_ctx_le.
+  - split_and; auto using ax_subst_ident_le, ax_subst_cls_le.
+  - split_and; auto using ax_subst_cls_le. destruct env; simpl; auto using ax_subst_ctx_le.
+  - cbn [ax_le ax_subst] in *. split_and; auto using ax_subst_ident_le, ax_subst_ctx_le.
+  - cbn [ax_le ax_subst] in *. split_and; auto.
+  - cbn [ax_le ax_subst] in *. split_and; auto using ax_subst_ident_le.
+  - cbn [ax_le ax_subst] in *. split_and; auto using ax_subst_ident_le.
+  - cbn [ax_le ax_subst] in *. split_and; auto using ax_subst_ident_le. destruct b; simpl; auto using ax_subst_ident_le.
+  - cbn [ax_le ax_subst] in *. auto using ax_subst_ident_le.
+Qed.
+
+(* Core side: [ib_stmt m] (every variable id <= m) is monotone in m and stable under substitution *)
+Lemma id_le_mono : forall m m' x, (m <= m')%N -> id_le m x = true -> id_le m' x = true.
+Proof. unfold id_le. intros. apply N.leb_le. apply N.leb_le in H0. lia. Qed.
+Lemma ctx_le_mono : forall m m' c, (m <= m')%N -> ctx_le m c = true -> ctx_le m' c = true.
+Proof. unfold ctx_le. intros. rewrite forallb_forall in *. intros b Hb. eapply id_le_mono; eauto. Qed.
+Definition ib_clauses (m : N) (cls : list fsclause) : bool :=
+  forallb (fun c => ctx_le m (clause_ctx c) && ib_stmt m (clause_body c)) cls.
+Lemma ib_term_xcase : forall m c cls t, ib_term m (FsXCase c cls t) = ib_clauses m cls.
+Proof.
+  intros. unfold ib_clauses. cbn. induction cls as [|[c' x ctx b] r IH]; cbn; [reflexivity|]. now rewrite IH.
+Qed.
+Definition csub_le (m : N) (sub : csubst) : Prop := forall o n, In (o, n) sub -> id_le m n = true.
+Lemma subst_ident_le : forall m sub x, csub_le m sub -> id_le m x = true -> id_le m (subst_ident sub x) = true.
+Proof.
+  induction sub as [|[o n] r IH]; intros x Hs Hx; simpl; [exact Hx|].
+  destruct (N.eqb o (cid_id x)); [eapply Hs; now left | apply IH; auto]. intros o' n' Hin. eapply Hs. right. exact Hin.
+Qed.
+Lemma subst_ctx_le : forall m sub c, csub_le m sub -> ctx_le m c = true -> ctx_le m (subst_ctx sub c) = true.
+Proof.
+  intros m sub c Hs H. unfold ctx_le, subst_ctx in *. rewrite forallb_forall in *. intros b Hb.
+  apply in_map_iff in Hb as [b0 [<- Hb0]]. simpl. apply subst_ident_le; auto.
+Qed.
+Lemma ib_all : forall m m' sub, (m <= m')%N -> csub_le m' sub ->
+  (forall t, ib_term m t = true -> ib_term m' (subst_term sub t) = true) /\
+  (forall c, ctx_le m (clause_ctx c) && ib_stmt m (clause_body c) = true ->
+             ctx_le m' (clause_ctx (subst_clause sub c)) && ib_stmt m' (clause_body (subst_clause sub c)) = true) /\
+  (forall s, ib_stmt m s = true -> ib_stmt m' (subst_stmt sub s) = true).
+Proof.
+  intros m m' sub Hm Hs. apply fs_mutind; intros.
+  - cbn [ib_term ib_stmt subst_term subst_stmt subst_clause clause_ctx clause_body option_map] in *. apply subst_ident_le; eauto using id_le_mono.
+  - reflexivity.
+  - cbn [ib_term ib_stmt subst_term subst_stmt subst_clause clause_ctx clause_body option_map] in *. split_and; apply subst_ident_le; eauto using id_le_mono.
+  - cbn [ib_term ib_stmt subst_term subst_stmt subst_clause clause_ctx clause_body option_map] in *. split_and; eauto using id_le_mono.
+  - cbn [ib_term ib_stmt subst_term subst_stmt subst_clause clause_ctx clause_body option_map] in *. apply subst_ctx_le; eauto using ctx_le_mono.
+  - rewrite subst_term_xcase, ib_term_xcase in *. unfold ib_clauses, subst_clauses in *.
+    rewrite forallb_forall in *. rewrite Forall_forall in H. intros c0 Hc0.
+    apply in_map_iff in Hc0 as [c1 [<- Hc1]]. apply H; auto.
+  - cbn [ib_term ib_stmt subst_term subst_stmt subst_clause clause_ctx clause_body option_map] in *. split_and; eauto using ctx_le_mono.
+  - cbn [ib_term ib_stmt subst_term subst_stmt subst_clause clause_ctx clause_body option_map] in *. split_and; auto.
+  - cbn [ib_term ib_stmt subst_term subst_stmt subst_clause clause_ctx clause_body option_map] in *. split_and; auto; try (apply subst_ident_le; eauto using id_le_mono).
+    destruct b; simpl; auto. apply subst_ident_le; eauto using id_le_mono.
+  - cbn [ib_term ib_stmt subst_term subst_stmt subst_clause clause_ctx clause_body option_map] in *. split_and; auto. apply subst_ident_le; eauto using id_le_mono.
+  - cbn [ib_term ib_stmt subst_term subst_stmt subst_clause clause_ctx clause_body option_map] in *. apply subst_ctx_le; eauto using ctx_le_mono.
+  - cbn [ib_term ib_stmt subst_term subst_stmt subst_clause clause_ctx clause_body option_map] in *. apply subst_ident_le; eauto using id_le_mono.
+Qed.
+Lemma ib_stmt_subst : forall m m' sub s, (m <= m')%N -> csub_le m' sub -> ib_stmt m s = true -> ib_stmt m' (subst_stmt sub s) = true.
+Proof. intros. eapply ib_all; eauto. Qed.
+Lemma subst_stmt_nil_ident : forall x, subst_ident [] x = x.
+Proof. reflexivity. Qed.
+Lemma ib_stmt_mono : forall m m' s, (m <= m')%N -> ib_stmt m s = true -> ib_stmt m' s = true.
+Proof.
+  intros m m' s Hm H.
+  assert (Hn : (forall t, subst_term [] t = t) /\ (forall c, subst_clause [] c = c) /\ (forall s, subst_stmt [] s = s)).
+  { apply fs_mutind; intros; simpl; try congruence.
+    - f_equal. unfold subst_ctx. rewrite <- (map_id args) at 2. apply map_ext. intros [v c0 t0]; reflexivity.
+    - f_equal. induction H0 as [|y r Hy Hr IH]; [reflexivity|]. now rewrite Hy, IH.
+    - destruct b; simpl; congruence.
+    - f_equal. unfold subst_ctx. rewrite <- (map_id args) at 2. apply map_ext. intros [v c0 t0]; reflexivity. }
+  destruct Hn as [_ [_ Hn]]. rewrite <- (Hn s). eapply ib_stmt_subst; eauto. intros o n [].
+Qed.
+
+Lemma shrink_binding_var : forall codata b, bvar (shrink_binding codata b) = cbvar b.
+Proof.
+  intros codata [v c t]. unfold shrink_binding. simpl.
+  destruct (cty_eqb t CI64); destruct (cchi_eqb c CCns); simpl; auto; destruct (_ || _); auto.
+Qed.
+Lemma shrink_context_le : forall m codata c, ctx_le m c = true -> actx_le m (shrink_context codata c) = true.
+Proof.
+  intros m codata c H. unfold ctx_le, actx_le, shrink_context in *. rewrite forallb_forall in *.
+  intros b Hb. apply in_map_iff in Hb as [b0 [<- Hb0]]. rewrite shrink_binding_var. apply (H b0 Hb0).
+Qed.
+Lemma fresh_env_spec : forall bs st env st1, fresh_env bs st = (env, st1) ->
+  (s_max st <= s_max st1)%N /\ s_lifted st1 = s_lifted st /\ actx_le (s_max st1) env = true.
+Proof.
+  induction bs as [|b r IH]; intros st env st1 H; simpl in H.
+  - inv H. repeat split; auto. lia.
+  - destruct (fresh_env r _) as [r' st2] eqn:Hr. inv H. apply IH in Hr as [Hm [Hl Hle]]. simpl in *.
+    repeat split; auto; [lia|]. split_and; auto. unfold v_le. simpl. apply N.leb_le. lia.
+Qed.
+
+Lemma unknown_clauses_spec : forall codata ve tty xs st cls st',
+  unknown_clauses codata ve tty xs st = (cls, st') -> v_le (s_max st) ve = true ->
+  (s_max st <= s_max st')%N /\ s_lifted st' = s_lifted st /\ cls_le (s_max st') cls = true.
+Proof.
+  induction xs as [|[xt args] r IH]; intros st cls st' H Hv; simpl in H.
+  - inv H. repeat split; auto. lia.
+  - destruct (fresh_env _ st) as [env st1] eqn:He. destruct (unknown_clauses _ _ _ r st1) as [r' st2] eqn:Hr. inv H.
+    apply fresh_env_spec in He as [Hm1 [Hl1 Hle1]].
+    apply IH in Hr as [Hm2 [Hl2 Hle2]]; [|eapply v_le_mono; eauto].
+    repeat split; [lia | congruence |]. unfold cls_le in *. simpl. split_and; auto.
+    + eapply actx_le_mono; eauto.
+    + eapply v_le_mono; [|exact Hv]. lia.
+    + eapply actx_le_mono; eauto.
+Qed.
+
+Lemma critical_clauses_spec : forall codata ve tty se xs st cls st',
+  critical_clauses codata ve tty se xs st = (cls, st') -> ax_le (s_max st) se = true ->
+  (s_max st <= s_max st')%N /\ s_lifted st' = s_lifted st /\ cls_le (s_max st') cls = true.
+Proof.
+  induction xs as [|[xt args] r IH]; intros st cls st' H Hse; simpl in H.
+  - inv H. repeat split; auto. lia.
+  - destruct (fresh_env _ st) as [env sta] eqn:He.
+    destruct (critical_clauses _ _ _ _ r _) as [r' stc] eqn:Hr. inv H.
+    apply fresh_env_spec in He as [Hm1 [Hl1 Hle1]].
+    apply IH in Hr as [Hm2 [Hl2 Hle2]]; [|eapply ax_le_mono; [|exact Hse]; simpl; lia].
+    simpl in *. repeat split; [lia | congruence |]. unfold cls_le in *. simpl. split_and; auto.
+    + apply actx_le_mono with (m := s_max sta); [lia | exact Hle1].
+    + unfold v_le. simpl. apply N.leb_le. lia.
+    + apply actx_le_mono with (m := s_max sta); [lia | exact Hle1].
+    + apply ax_subst_le.
+      * intros o n [Heq|[]]. inv Heq. unfold v_le. simpl. apply N.leb_le. lia.
+      * eapply ax_le_mono; [|exact Hse]. lia.
+Qed.
+
+Definition ids_pre (st : sst) (s : fsstmt) : Prop :=
+  ib_stmt (s_max st) s = true /\ forallb (def_le (s_max st)) (s_lifted st) = true.
+Definition ids_post (st : sst) (r : stmt) (st' : sst) : Prop :=
+  (s_max st <= s_max st')%N /\ ax_le (s_max st') r = true /\ forallb (def_le (s_max st')) (s_lifted st') = true.
+
+Lemma ids_pre_weaken : forall st st0 s r0,
+  ids_post st0 r0 st -> ib_stmt (s_max st0) s = true -> ids_pre st s.
+Proof. intros st st0 s r0 [Hm [_ Hl]] Hs. split; [eapply ib_stmt_mono; eauto | exact Hl]. Qed.
+
+Section IdsStep.
+Variable rec : fsstmt -> sst -> shres (stmt * sst).
+Variable E : senv.
+Hypothesis Hrec : forall s st r st', rec s st = SOk (r, st') -> ids_pre st s -> ids_post st r st'.
+
+Lemma shrink_clauses_ids : forall cls st r st',
+  shrink_clauses rec E cls st = SOk (r, st') ->
+  ib_clauses (s_max st) cls = true -> forallb (def_le (s_max st)) (s_lifted st) = true ->
+  (s_max st <= s_max st')%N /\ cls_le (s_max st') r = true /\ forallb (def_le (s_max st')) (s_lifted st') = true.
+Proof.
+  induction cls as [|[c x ctx b] rr IH]; intros st r st' H Hib Hl; simpl in H.
+  - inv H. repeat split; auto. lia.
+  - destruct (rec b st) as [[b' st1]|] eqn:Hb; [|discriminate]. cbn [sbind] in H.
+    destruct (shrink_clauses rec E rr st1) as [[r' st2]|] eqn:Hr; [|discriminate]. cbn [sbind] in H. inv H.
+    unfold ib_clauses in Hib. simpl in Hib. split_and.
+    apply Hrec in Hb as [Hm1 [Hle1 Hl1]]; [|split; auto].
+    apply IH in Hr as [Hm2 [Hle2 Hl2]]; auto.
+    + repeat split; [lia | | auto]. unfold cls_le in *. simpl. split_and; auto.
+      * apply shrink_context_le. eapply ctx_le_mono; [|eauto]. lia.
+      * eapply ax_le_mono; eauto.
+    + unfold ib_clauses. rewrite forallb_forall in *. intros c0 Hc0. specialize (H0 c0 Hc0). split_and.
+      * eapply ctx_le_mono; eauto.
+      * eapply ib_stmt_mono; eauto.
+Qed.
+
+Lemma fresh_params_le : forall fvs m, ctx_le (m + N.of_nat (List.length fvs)) (fresh_params fvs m) = true.
+Proof.
+  intros fvs m. unfold ctx_le. rewrite forallb_forall. intros b Hb.
+  assert (Hin : In (cid_id (cbvar b)) (cids (fresh_params fvs m))) by (unfold cids; now apply in_map with (f := fun b => cid_id (cbvar b))).
+  apply fresh_params_ids in Hin. unfold id_le. apply N.leb_le. lia.
+Qed.
+Lemma combine_sub_le : forall m ids (xs : list cident),
+  forallb (id_le m) xs = true -> csub_le m (combine ids xs).
+Proof.
+  intros m ids xs H o n Hin. apply in_combine_r in Hin. rewrite forallb_forall in H. now apply H.
+Qed.
+Lemma ctx_le_vars : forall m c, ctx_le m c = true -> forallb (id_le m) (cvars c) = true.
+Proof. intros. unfold ctx_le, cvars in *. rewrite forallb_forall in *. intros x Hx. apply in_map_iff in Hx as [b [<- Hb]]. now apply H. Qed.
+
+(* the free variables of a statement are among its variables *)
+Lemma bs_insert_in : forall b x l, In x (bs_insert b l) -> x = b \/ In x l.
+Proof.
+  induction l as [|y r IH]; simpl; intros H.
+  - destruct H as [<-|[]]; auto.
+  - destruct (cbinding_compare b y); simpl in H; auto.
+    + destruct H as [<-|H]; auto.
+    + destruct H as [<-|H]; auto. apply IH in H as [->|H]; auto.
+Qed.
+Lemma bs_remove_in : forall b x l, In x (bs_remove b l) -> In x l.
+Proof.
+  induction l as [|y r IH]; simpl; intros H; auto.
+  destruct (cbinding_compare b y); simpl in *; auto. destruct H; auto.
+Qed.
+Lemma bs_extend_in : forall bs x l, In x (bs_extend bs l) -> In x bs \/ In x l.
+Proof.
+  induction bs as [|b r IH]; simpl; intros x l H; auto.
+  apply IH in H as [H|H]; auto. apply bs_insert_in in H as [->|H]; auto.
+Qed.
+Lemma bs_remove_all_in : forall bs x l, In x (bs_remove_all bs l) -> In x l.
+Proof. induction bs as [|b r IH]; simpl; intros x l H; auto. apply IH in H. eapply bs_remove_in; eauto. Qed.
+Definition bset_le (m : N) (l : bset) : Prop := forall b, In b l -> id_le m (cbvar b) = true.
+Lemma tfv_le_all : forall m,
+  (forall t acc, ib_term m t = true -> bset_le m acc -> bset_le m (tfv_term t acc)) /\
+  (forall c acc, ctx_le m (clause_ctx c) && ib_stmt m (clause_body c) = true -> bset_le m acc -> bset_le m (tfv_clause c acc)) /\
+  (forall s acc, ib_stmt m s = true -> bset_le m acc -> bset_le m (tfv_stmt s acc)).
+Proof.
+  intros m. apply fs_mutind; intros; rewrite ?ib_term_xcase in *;
+    cbn [ib_term ib_stmt tfv_term tfv_stmt tfv_clause clause_ctx clause_body] in *; split_and.
+  - intros z Hz. apply bs_insert_in in Hz as [->|Hz]; auto.
+  - auto.
+  - intros z Hz. apply bs_insert_in in Hz as [->|Hz]; auto. apply bs_insert_in in Hz as [->|Hz]; auto.
+  - intros z Hz. apply bs_remove_in in Hz. eapply H; eauto.
+  - intros z Hz. apply bs_extend_in in Hz as [Hz|Hz]; auto. unfold ctx_le in H. rewrite forallb_forall in H. auto.
+  - unfold ib_clauses in H0. revert acc H1. induction H as [|cl r Hcl Hr IH]; intros acc Hacc; auto.
+    simpl in H0. split_and. apply IH; auto. apply Hcl; auto. split_and; auto.
+  - intros z Hz. apply bs_remove_all_in in Hz. eapply H; eauto.
+  - apply H0; auto.
+  - apply H0; auto. apply H; auto.
+    assert (Ha : bset_le m (bs_insert (i64_prd a) acc)).
+    { intros z Hz. apply bs_insert_in in Hz as [->|Hz]; auto. }
+    destruct b; auto. intros z Hz. apply bs_insert_in in Hz as [->|Hz]; auto.
+  - apply H; auto. intros z Hz. apply bs_insert_in in Hz as [->|Hz]; auto.
+  - intros z Hz. apply bs_extend_in in Hz as [Hz|Hz]; auto. unfold ctx_le in H. rewrite forallb_forall in H. auto.
+  - intros z Hz. apply bs_insert_in in Hz as [->|Hz]; auto.
+Qed.
+Lemma typed_free_vars_le : forall m s, ib_stmt m s = true -> ctx_le m (typed_free_vars s) = true.
+Proof.
+  intros m s H. unfold ctx_le. rewrite forallb_forall. intros b Hb.
+  eapply (proj2 (proj2 (tfv_le_all m))); eauto. intros x [].
+Qed.
+
+Lemma lift_ids : forall s st r st', lift rec E s st = SOk (r, st') -> ids_pre st s -> ids_post st r st'.
+Proof.
+  intros s st r st' H [Hib Hl]. apply lift_closed in H.
+  destruct H as [_ [_ [_ [_ [-> [body [st3 [Hb ->]]]]]]]].
+  set (fvs := typed_free_vars s) in *. set (m1 := N.succ (s_max st + N.of_nat (List.length fvs))) in *.
+  assert (Hp : ctx_le m1 (fresh_params fvs (s_max st)) = true).
+  { eapply ctx_le_mono; [|apply fresh_params_le]. unfold m1. lia. }
+  apply Hrec in Hb as [Hm [Hle Hl3]].
+  - unfold ids_post. cbn [s_max s_lifted] in *. repeat split.
+    + unfold m1 in Hm. lia.
+    + cbn [ax_le]. apply shrink_context_le. eapply ctx_le_mono; [|apply typed_free_vars_le; exact Hib]. unfold m1 in Hm. lia.
+    + cbn [forallb]. split_and; auto. unfold def_le. cbn [dctx dbody]. split_and; auto.
+      apply shrink_context_le. eapply ctx_le_mono; eauto.
+  - unfold ids_pre. split; cbn [s_max s_lifted].
+    + eapply ib_stmt_subst; [|apply combine_sub_le; apply ctx_le_vars; exact Hp|exact Hib]. unfold m1. lia.
+    + eapply defs_le_mono; [|exact Hl]. unfold m1. lia.
+Qed.
+End IdsStep.
+
+Lemma ib_stmt_cut : forall m p ty k, ib_stmt m (FsCut p ty k) = ib_term m p && ib_term m k.
+Proof. reflexivity. Qed.
+Lemma ib_stmt_ifc : forall m so a b t e, ib_stmt m (FsIfC so a b t e) =
+  id_le m a && match b with Some b' => id_le m b' | None => true end && ib_stmt m t && ib_stmt m e.
+Proof. reflexivity. Qed.
+Lemma ib_stmt_print : forall m nl a n, ib_stmt m (FsPrint nl a n) = id_le m a && ib_stmt m n.
+Proof. reflexivity. Qed.
+Lemma ib_term_mu : forall m c v s t, ib_term m (FsMu c v s t) = id_le m v && ib_stmt m s.
+Proof. reflexivity. Qed.
+Lemma ib_term_xvar : forall m c v t, ib_term m (FsXVar c v t) = id_le m v.
+Proof. reflexivity. Qed.
+Lemma ib_term_op : forall m a o b, ib_term m (FsOp a o b) = id_le m a && id_le m b.
+Proof. reflexivity. Qed.
+Lemma ib_term_xtor : forall m c x args t, ib_term m (FsXtor c x args t) = ctx_le m args.
+Proof. reflexivity. Qed.
+
+Section IdsStep2.
+Variable rec : fsstmt -> sst -> shres (stmt * sst).
+Variable E : senv.
+Hypothesis Hrec : forall s st r st', rec s st = SOk (r, st') -> ids_pre st s -> ids_post st r st'.
+
+Lemma v_le_id_le : forall m x, id_le m x = true -> v_le m x = true.
+Proof. intros. exact H. Qed.
+
+Lemma critical_ids : forall vp sp vc sc ty st r st',
+  shrink_critical_pairs rec E vp sp vc sc ty st = SOk (r, st') ->
+  id_le (s_max st) vp = true -> id_le (s_max st) vc = true ->
+  ib_stmt (s_max st) sp = true -> ib_stmt (s_max st) sc = true ->
+  forallb (def_le (s_max st)) (s_lifted st) = true -> ids_post st r st'.
+Proof.
+  intros vp sp vc sc ty st r st' H Hvp Hvc Hsp Hsc Hl. unfold shrink_critical_pairs in H. destruct ty as [|n].
+  - destruct (rec sc st) as [[body st1]|] eqn:H1; [|discriminate]. cbn [sbind] in H.
+    destruct (rec sp st1) as [[next st2]|] eqn:H2; [|discriminate]. cbn [sbind] in H. inv H.
+    apply Hrec in H1 as [Hm1 [Hle1 Hl1]]; [|split; auto].
+    apply Hrec in H2 as [Hm2 [Hle2 Hl2]]; [|split; auto; eapply ib_stmt_mono; eauto].
+    unfold ids_post. repeat split; [lia | | auto].
+    rewrite ax_le_create. unfold cls_le. cbn [forallb actx_le fst snd bvar]. split_and; auto.
+    + eapply v_le_mono; [|exact Hvp]. lia.
+    + eapply v_le_mono; [|exact Hvc]. lia.
+    + eapply ax_le_mono; eauto.
+  - destruct (xtors_of E (CDecl n) n) as [xs|]; [|discriminate]. cbn [sbind] in H.
+    (* both orientations are the same argument: (keep, expand) *)
+    assert (Hgen : forall vk sk ve se,
+      id_le (s_max st) vk = true -> id_le (s_max st) ve = true ->
+      ib_stmt (s_max st) sk = true -> ib_stmt (s_max st) se = true ->
+      (dos (shrunk, st1) <- (if Nat.leb (List.length xs) 1 || is_leaf_statement se then rec se st else lift rec E se st);
+       let '(clauses, st2) := critical_clauses (e_codata E) ve (shrink_ty (CDecl n)) shrunk xs st1 in
+       dos (next, st3) <- rec sk st2;
+       SOk (Create (shrink_identifier vk) (Decl (shrink_identifier n)) None clauses next, st3)) = SOk (r, st') ->
+      ids_post st r st').
+    { intros vk sk ve se Hvk Hve Hsk Hse H0.
+      destruct (if _ || _ then _ else _) as [[shrunk st1]|] eqn:He; [|discriminate]. cbn [sbind] in H0.
+      destruct (critical_clauses _ _ _ _ _ _) as [cls st2] eqn:Hc.
+      destruct (rec sk st2) as [[next st3]|] eqn:Hk; [|discriminate]. cbn [sbind] in H0. inv H0.
+      assert (Hpost1 : ids_post st shrunk st1).
+      { destruct (_ || _); [eapply Hrec; [exact He|] | eapply lift_ids; [exact Hrec | exact He |]]; split; auto. }
+      destruct Hpost1 as [Hm1 [Hle1 Hl1]].
+      apply critical_clauses_spec in Hc as [Hm2 [Hl2 Hle2]]; auto.
+      apply Hrec in Hk as [Hm3 [Hle3 Hl3]].
+      - unfold ids_post. repeat split; [lia | | auto]. rewrite ax_le_create. split_and; auto.
+        + eapply v_le_mono; [|exact Hvk]. lia.
+        + unfold cls_le in *. rewrite forallb_forall in *. intros c Hc. specialize (Hle2 c Hc). split_and.
+          * eapply actx_le_mono; eauto.
+          * eapply ax_le_mono; eauto.
+      - split; [eapply ib_stmt_mono; [|exact Hsk]; lia|]. rewrite Hl2. eapply defs_le_mono; eauto. }
+    destruct (is_codata (e_codata E) (CDecl n)); cbv beta iota in H;
+      [apply (Hgen vc sc vp sp) | apply (Hgen vp sp vc sc)]; auto.
+Qed.
+
+Lemma unknown_ids : forall vp vc ty st r st',
+  shrink_unknown_cuts E vp vc ty st = SOk (r, st') ->
+  id_le (s_max st) vp = true -> id_le (s_max st) vc = true ->
+  forallb (def_le (s_max st)) (s_lifted st) = true -> ids_post st r st'.
+Proof.
+  intros vp vc ty st r st' H Hvp Hvc Hl. unfold shrink_unknown_cuts in H. destruct ty as [|n].
+  - inv H. unfold ids_post, invoke_ret. cbn [ax_le actx_le forallb bvar]. repeat split; auto; [lia|]. split_and; auto.
+  - destruct (xtors_of E (CDecl n) n) as [xs|]; [|discriminate]. cbn [sbind] in H.
+    destruct (is_codata (e_codata E) (CDecl n)); cbv beta iota in H;
+      destruct (unknown_clauses _ _ _ _ _) as [cls st1] eqn:Hc; inv H;
+      apply unknown_clauses_spec in Hc as [Hm [Hl1 Hle]]; auto;
+      (unfold ids_post; repeat split; [lia | | rewrite Hl1; eapply defs_le_mono; eauto]);
+      rewrite ax_le_switch; split_and; auto; eapply v_le_mono; eauto.
+Qed.
+
+Lemma known_ids : forall x args cls st r st',
+  shrink_known_cuts rec x args cls st = SOk (r, st') ->
+  forallb (id_le (s_max st)) args = true -> ib_clauses (s_max st) cls = true ->
+  forallb (def_le (s_max st)) (s_lifted st) = true -> ids_post st r st'.
+Proof.
+  intros x args cls st r st' H Ha Hc Hl. unfold shrink_known_cuts in H.
+  destruct (find _ cls) as [cl|] eqn:Hf; [|discriminate]. apply find_some in Hf as [Hin _].
+  unfold ib_clauses in Hc. rewrite forallb_forall in Hc. specialize (Hc cl Hin). split_and.
+  apply Hrec in H; auto. split; auto.
+  eapply ib_stmt_subst; [apply N.le_refl | apply combine_sub_le; exact Ha | auto].
+Qed.
+
+Lemma shrink_step_ids : forall s st r st', shrink_step rec E s st = SOk (r, st') -> ids_pre st s -> ids_post st r st'.
+Proof.
+  intros s st r st' H [Hib Hl]. destruct s as [p ty k|so a b t e|nl a nx|f args|v].
+  - (* cut *)
+    cbn [shrink_step] in H. unfold shrink_cut in H. rewrite ib_stmt_cut in Hib. apply andb_prop in Hib as [Hp Hk].
+    destruct p as [c1 v1 t1|l1|a1 o1 b1|c1 v1 s1 t1|c1 x1 args1 t1|c1 cls1 t1];
+    destruct k as [c2 v2 t2|l2|a2 o2 b2|c2 v2 s2 t2|c2 x2 args2 t2|c2 cls2 t2];
+      try discriminate H; rewrite ?ib_term_xcase, ?ib_term_mu, ?ib_term_xvar, ?ib_term_op, ?ib_term_xtor in *; split_and.
+    + (* XVar, XVar *) eapply unknown_ids; eauto.
+    + (* XVar, Mu *) unfold shrink_renaming in H. apply Hrec in H; auto. split; auto.
+      eapply ib_stmt_subst; [apply N.le_refl | | eauto]. intros o n [Heq|[]]. now inv Heq.
+    + (* XVar, Xtor *) inv H. unfold ids_post. cbn [ax_le]. repeat split; auto; [lia|]. split_and; auto using shrink_context_le.
+    + (* XVar, XCase *)
+      destruct (shrink_clauses rec E cls2 st) as [[cls' st1]|] eqn:Hc; [|discriminate]. cbn [sbind] in H. inv H.
+      eapply shrink_clauses_ids in Hc as [Hm [Hle Hl1]]; eauto.
+      unfold ids_post. rewrite ax_le_switch. repeat split; auto. split_and; auto. eapply v_le_mono; eauto.
+    + (* Lit, XVar *) unfold fresh_var, fresh_identifier in H. inv H. unfold ids_post, invoke_ret. cbn [s_max s_lifted ax_le actx_le forallb bvar].
+      repeat split; [lia | | eapply defs_le_mono; [|eauto]; lia].
+      split_and; auto; try (unfold v_le; simpl; apply N.leb_le; lia). eapply v_le_mono; [|exact Hk]. lia.
+    + (* Lit, Mu *)
+      destruct (rec s2 st) as [[nx st1]|] eqn:Hr; [|discriminate]. cbn [sbind] in H. inv H.
+      apply Hrec in Hr as [Hm [Hle Hl1]]; [|split; auto]. unfold ids_post. cbn [ax_le]. repeat split; auto. split_and; auto. eapply v_le_mono; eauto.
+    + (* Op, XVar *) unfold fresh_var, fresh_identifier in H. inv H. unfold ids_post, invoke_ret. cbn [s_max s_lifted ax_le actx_le forallb bvar].
+      repeat split; [lia | | eapply defs_le_mono; [|eauto]; lia].
+      split_and; auto; try (unfold v_le; simpl; apply N.leb_le; lia); (eapply v_le_mono; [|eassumption]; lia).
+    + (* Op, Mu *)
+      destruct (rec s2 st) as [[nx st1]|] eqn:Hr; [|discriminate]. cbn [sbind] in H. inv H.
+      apply Hrec in Hr as [Hm [Hle Hl1]]; [|split; auto]. unfold ids_post. cbn [ax_le]. repeat split; auto.
+      split_and; auto; eapply v_le_mono; eauto.
+    + (* Mu, XVar *) unfold shrink_renaming in H. apply Hrec in H; auto. split; auto.
+      eapply ib_stmt_subst; [apply N.le_refl | | eauto]. intros o n [Heq|[]]. now inv Heq.
+    + (* Mu, Mu *) eapply critical_ids; eauto.
+    + (* Mu, Xtor *)
+      destruct (rec s1 st) as [[nx st1]|] eqn:Hr; [|discriminate]. cbn [sbind] in H. inv H.
+      apply Hrec in Hr as [Hm [Hle Hl1]]; [|split; auto]. unfold ids_post. cbn [ax_le]. repeat split; auto.
+      split_and; auto; [eapply v_le_mono; eauto | apply shrink_context_le; eapply ctx_le_mono; eauto].
+    + (* Mu, XCase *)
+      destruct (shrink_clauses rec E cls2 st) as [[cls' st1]|] eqn:Hc; [|discriminate]. cbn [sbind] in H.
+      destruct (rec s1 st1) as [[nx st2]|] eqn:Hr; [|discriminate]. cbn [sbind] in H. inv H.
+      eapply shrink_clauses_ids in Hc as [Hm1 [Hle1 Hl1]]; eauto.
+      apply Hrec in Hr as [Hm2 [Hle2 Hl2]]; [|split; auto; eapply ib_stmt_mono; eauto].
+      unfold ids_post. rewrite ax_le_create. repeat split; auto; [lia|]. split_and; auto.
+      * eapply v_le_mono; [|eassumption]. lia.
+      * unfold cls_le in *. rewrite forallb_forall in *. intros c Hc. specialize (Hle1 c Hc). split_and;
+          [eapply actx_le_mono; eauto | eapply ax_le_mono; eauto].
+    + (* Xtor, XVar *) inv H. unfold ids_post. cbn [ax_le]. repeat split; auto; [lia|]. split_and; auto using shrink_context_le.
+    + (* Xtor, Mu *)
+      destruct (rec s2 st) as [[nx st1]|] eqn:Hr; [|discriminate]. cbn [sbind] in H. inv H.
+      apply Hrec in Hr as [Hm [Hle Hl1]]; [|split; auto]. unfold ids_post. cbn [ax_le]. repeat split; auto.
+      split_and; auto; [eapply v_le_mono; eauto | apply shrink_context_le; eapply ctx_le_mono; eauto].
+    + (* Xtor, XCase *) eapply known_ids; eauto. now apply ctx_le_vars.
+    + (* XCase, XVar *)
+      destruct (shrink_clauses rec E cls1 st) as [[cls' st1]|] eqn:Hc; [|discriminate]. cbn [sbind] in H. inv H.
+      eapply shrink_clauses_ids in Hc as [Hm [Hle Hl1]]; eauto.
+      unfold ids_post. rewrite ax_le_switch. repeat split; auto. split_and; auto. eapply v_le_mono; eauto.
+    + (* XCase, Mu *)
+      destruct (shrink_clauses rec E cls1 st) as [[cls' st1]|] eqn:Hc; [|discriminate]. cbn [sbind] in H.
+      destruct (rec s2 st1) as [[nx st2]|] eqn:Hr; [|discriminate]. cbn [sbind] in H. inv H.
+      eapply shrink_clauses_ids in Hc as [Hm1 [Hle1 Hl1]]; eauto.
+      apply Hrec in Hr as [Hm2 [Hle2 Hl2]]; [|split; auto; eapply ib_stmt_mono; eauto].
+      unfold ids_post. rewrite ax_le_create. repeat split; auto; [lia|]. split_and; auto.
+      * eapply v_le_mono; [|eassumption]. lia.
+      * unfold cls_le in *. rewrite forallb_forall in *. intros c Hc. specialize (Hle1 c Hc). split_and;
+          [eapply actx_le_mono; eauto | eapply ax_le_mono; eauto].
+    + (* XCase, Xtor *) eapply known_ids; eauto. now apply ctx_le_vars.
+  - cbn [shrink_step] in H. rewrite ib_stmt_ifc in Hib. split_and.
+    destruct (rec t st) as [[t' st1]|] eqn:Hr1; [|discriminate]. cbn [sbind] in H.
+    destruct (rec e st1) as [[e' st2]|] eqn:Hr2; [|discriminate]. cbn [sbind] in H. inv H.
+    apply Hrec in Hr1 as [Hm1 [Hle1 Hl1]]; [|split; auto].
+    apply Hrec in Hr2 as [Hm2 [Hle2 Hl2]]; [|split; auto; eapply ib_stmt_mono; eauto].
+    unfold ids_post. cbn [ax_le]. repeat split; auto; [lia|]. split_and; auto.
+    + eapply v_le_mono; [|eassumption]. lia.
+    + destruct b; simpl; auto. eapply v_le_mono; [|eassumption]. lia.
+    + eapply ax_le_mono; eauto.
+  - cbn [shrink_step] in H. rewrite ib_stmt_print in Hib. split_and.
+    destruct (rec nx st) as [[t' st1]|] eqn:Hr1; [|discriminate]. cbn [sbind] in H. inv H.
+    apply Hrec in Hr1 as [Hm1 [Hle1 Hl1]]; [|split; auto].
+    unfold ids_post. cbn [ax_le]. repeat split; auto. split_and; auto. eapply v_le_mono; eauto.
+  - cbn [shrink_step] in H. inv H. unfold ids_post. cbn [ax_le]. repeat split; auto; [lia|]. now apply shrink_context_le.
+  - cbn [shrink_step] in H. inv H. unfold ids_post. cbn [ax_le]. repeat split; auto. lia.
+Qed.
+End IdsStep2.
+
+Lemma shrink_stmt_ids : forall E fuel s st r st',
+  shrink_stmt fuel E s st = SOk (r, st') -> ids_pre st s -> ids_post st r st'.
+Proof.
+  intros E fuel. induction fuel as [|fuel IH]; intros s st r st' H Hpre; [discriminate|].
+  simpl in H. eapply shrink_step_ids; eauto.
+Qed.
+
+Lemma shrink_def_ids : forall d data codata m ds m',
+  shrink_def d data codata m = SOk (ds, m') ->
+  ctx_le m (fsdctx d) = true -> ib_stmt m (fsdbody d) = true ->
+  (m <= m')%N /\ forallb (def_le m') ds = true.
+Proof.
+  intros d data codata m ds m' H Hc Hb. unfold shrink_def in H.
+  destruct (shrink_stmt _ _ _ _) as [[body st]|] eqn:Hs; [|discriminate]. cbn [sbind] in H. inv H.
+  apply shrink_stmt_ids in Hs as [Hm [Hle Hl]]; [|split; auto]. cbn [s_max] in *.
+  split; auto. cbn [forallb]. split_and; auto. unfold def_le. cbn [dctx dbody]. split_and; auto.
+  apply shrink_context_le. eapply ctx_le_mono; eauto.
+Qed.
+
+Lemma shrink_defs_ids : forall ds data codata m acc out m',
+  shrink_defs ds data codata m acc = SOk (out, m') ->
+  forallb (fun d => ctx_le m (fsdctx d) && ib_stmt m (fsdbody d)) ds = true ->
+  forallb (def_le m) acc = true ->
+  (m <= m')%N /\ forallb (def_le m') out = true.
+Proof.
+  induction ds as [|d r IH]; intros data codata m acc out m' H Hds Hacc; simpl in H.
+  - inv H. split; [lia|]. unfold frev. rewrite rev_append_rev, app_nil_r. rewrite forallb_forall in *.
+    intros x Hx. apply Hacc. now apply in_rev.
+  - destruct (shrink_def d data codata m) as [[o m1]|] eqn:Hd; [|discriminate]. cbn [sbind] in H.
+    simpl in Hds. split_and. apply shrink_def_ids in Hd as [Hm1 Ho]; auto.
+    apply IH in H as [Hm2 Hout].
+    + split; [lia | exact Hout].
+    + rewrite forallb_forall in *. intros x Hx. specialize (H1 x Hx). split_and; [eapply ctx_le_mono | eapply ib_stmt_mono]; eauto.
+    + rewrite rev_append_rev. rewrite forallb_app. split_and.
+      * rewrite forallb_forall in *. intros x Hx. apply Ho. now apply in_rev.
+      * eapply defs_le_mono; eauto.
+Qed.
+
+(* The output's max_id is at least the input's and bounds the id of every variable (binder or
+   occurrence, in definitions and lifted definitions, parameters included) of the output. *)
+Theorem shrink_ids_bounded : forall p q,
+  ids_bounded p = true -> shrink_prog p = SOk q ->
+  (fspmax p <= pmax q)%N /\ forallb (def_le (pmax q)) (pdefs q) = true.
+Proof.
+  intros p q Hb H. unfold shrink_prog in H. destruct (_ || _); [discriminate|].
+  destruct (shrink_defs _ _ _ _ _) as [[defs m]|] eqn:Hd; [|discriminate]. cbn [sbind] in H. inv H. cbn [pmax pdefs].
+  eapply shrink_defs_ids; eauto.
+Qed.
